@@ -39,7 +39,7 @@ type ctx struct {
 }
 
 func main() {
-	mode := flag.String("mode", "sqlite", "sqlite|mysql|mysql-my57|mysql-my80|mysql-maria|mysql-history|postgres|postgres-ns|postgres-history|cli|realm|tattrs")
+	mode := flag.String("mode", "sqlite", "sqlite|mysql|mysql-my57|mysql-my80|mysql-maria|mysql-history|postgres|postgres-ns|postgres-history|cli|realm|tattrs|views")
 	tier := flag.String("tier", "quick", "quick|thorough")
 	outDir := flag.String("out", "", "output directory")
 	flag.Parse()
@@ -48,10 +48,16 @@ func main() {
 		os.Exit(2)
 	}
 	pm := *mode
-	if pm == "realm" || pm == "tattrs" {
+	if pm == "realm" || pm == "tattrs" || pm == "views" {
 		pm = "sqlite"
 	}
 	c := &ctx{w: out.New(*outDir), p: newProfile(pm), r: rng.FromEnv(0xC02)}
+	if *mode == "views" {
+		// round 5: views (views.go)
+		c.views(*tier == "thorough")
+		c.w.Close()
+		return
+	}
 	if *mode == "tattrs" {
 		// round 5: table attributes of MySQL / PostgreSQL (tattrs.go)
 		c.tattrs(*tier == "thorough")
